@@ -80,7 +80,7 @@ def gen_case(rng):
         present = names[:]  # all required ones satisfied
     cfg = present[:]
     if rng.random() < 0.12:
-        cfg.append(rng.choice(["unknown", "pipelin", "zz1"]))
+        cfg.append(rng.choice(["unknown", "pipelin", "zz1", "log", "logg", "ogging", "in", "g", "", "Logging", "logging2", "loggin", "s"]))
     if rng.random() < 0.3:
         cfg.append("logging")
     rng.shuffle(cfg)
@@ -88,7 +88,12 @@ def gen_case(rng):
     # what the section holds: mostly a mapping, sometimes nothing at all (`section:` with an empty
     # body in YAML) or another falsy value - present is present
     content = {s: rng.choice(CONTENT_KINDS) for s in cfg if s != "logging" and rng.random() < 0.3}
-    return {"plugins": plugins, "cfg": cfg, "returns": returns, "content": content}
+    case = {"plugins": plugins, "cfg": cfg, "returns": returns, "content": content}
+    if rng.random() < 0.4:
+        # the same plugin objects have been loaded before in this process while only some of them were
+        # installed (another entry point group, an earlier configuration): that load is over and done with
+        case["pre"] = [s for s in names if rng.random() < 0.6]
+    return case
 
 
 def impl(case):
@@ -106,6 +111,14 @@ def impl(case):
                              required=p["required"])(digest)
         entries.append(FakeEntry(p["name"], digest))
     orig = core.get_entrypoints
+    if case.get("pre") is not None:
+        core.get_entrypoints = lambda group: [e for e in entries if e.name in case["pre"]]
+        try:
+            core.load_section_plugins("vh.group.earlier")
+        except Exception:
+            pass
+        finally:
+            core.get_entrypoints = orig
     core.get_entrypoints = lambda group: list(entries)
     try:
         try:
